@@ -333,7 +333,7 @@ async def drive_ws(init: dict, ops: List[dict], cfg: Optional[dict] = None) -> T
     Returns per-step observations (step 0 = the Request event) and library facts (accept token, extension answer)."""
     from hypercorn.config import Config
     from hypercorn.asyncio.worker_context import WorkerContext
-    from hypercorn.protocol.events import Data, Request, StreamClosed
+    from hypercorn.protocol.events import Data, EndData, Request, StreamClosed
     from hypercorn.protocol.ws_stream import WSStream
     from hypercorn.typing import ConnectionState
     from wsproto.utilities import generate_accept_token
@@ -345,9 +345,27 @@ async def drive_ws(init: dict, ops: List[dict], cfg: Optional[dict] = None) -> T
     config._log = RecLog(sink)  # type: ignore
     tg = FakeTaskGroup(puts, sink)
     lost = {"armed": False, "fired": False}
+    # an application send suspended in its `at`-th awaited protocol-level send (transport back-pressure, HTTP/2 flow control)
+    # while the reader task handles `ins` on the stream: op {"send": msg, "during": [{"in": "data", "data": b} | {"in": "streamClosed"}], "at": p}
+    during: Dict[str, Any] = {"at": None, "ins": [], "n": 0, "inside": False, "fired": False, "yielded": [], "error": None}
 
     async def send(ev):
         sink.append(ev)
+        if during["at"] is not None and not during["inside"] and isinstance(ev, (Data, EndData)):     # the awaited sends of a connected stream
+            n = during["n"]
+            during["n"] += 1
+            if n == during["at"]:
+                during["inside"] = during["fired"] = True
+                try:
+                    for i in during["ins"]:
+                        k0 = len(tap.yielded)
+                        try:
+                            await stream.handle(Data(stream_id=1, data=i["data"]) if i["in"] == "data" else StreamClosed(stream_id=1))
+                        except Exception as e:      # (it is the reader task's exception, not the application's)
+                            during["error"] = _err_name(e)
+                        during["yielded"].append(list(tap.yielded[k0:]))
+                finally:
+                    during["inside"] = False
         if lost["armed"] and isinstance(ev, Data):
             # the write of this frame fails (the peer is gone): the protocols re-enter with Closed(), i.e. the stream is
             # handed StreamClosed *inside* the await of its own send
@@ -380,11 +398,18 @@ async def drive_ws(init: dict, ops: List[dict], cfg: Optional[dict] = None) -> T
         key = next((v for n, v in init["headers"] if n.lower() == b"sec-websocket-key"), None)
         lib["token"] = b2s(generate_accept_token(key)) if key is not None else ""
         yielded_per_op = []
-        for op in ops:
+        during_yielded: Dict[int, list] = {}
+        for op_index, op in enumerate(ops):
             err = None
             tap.yielded.clear()
             try:
-                if "send" in op:
+                if "send" in op and "during" in op:
+                    during.update({"at": int(op.get("at", 0)), "ins": list(op["during"]), "n": 0, "fired": False, "yielded": [], "error": None})
+                    try:
+                        await stream.app_send(op["send"])
+                    finally:
+                        during["at"] = None
+                elif "send" in op:
                     await stream.app_send(op["send"])
                 elif op["in"] == "data":
                     lost["armed"] = bool(op.get("echo_lost"))
@@ -396,6 +421,11 @@ async def drive_ws(init: dict, ops: List[dict], cfg: Optional[dict] = None) -> T
                 err = _err_name(e)
             yielded_per_op.append(list(tap.yielded))
             o = snap(err)
+            if "send" in op and "during" in op:
+                o["during_fired"] = during["fired"]
+                if during["error"]:
+                    o["during_error"] = during["error"]
+                during_yielded[op_index] = list(during["yielded"])
             out.append(o)
             # library fact: the negotiated extension header value, read off the rendered response
             for ev in o["events"]:
@@ -404,6 +434,8 @@ async def drive_ws(init: dict, ops: List[dict], cfg: Optional[dict] = None) -> T
                         if n == "sec-websocket-extensions":
                             lib["ext_accepts"] = v
         lib["yielded"] = yielded_per_op
+        if during_yielded:
+            lib["during_yielded"] = during_yielded
         lib["spawned_apps"] = tg.spawned_apps
     finally:
         tap.remove()
@@ -414,8 +446,13 @@ def ws_model_req(init: dict, ops: List[dict], lib: dict, cfg: Optional[dict] = N
     from hypercorn.config import Config
     c = cfg or {}
     jops = []
-    for op, yielded in zip(ops, lib["yielded"]):
-        if "send" in op:
+    for op_index, (op, yielded) in enumerate(zip(ops, lib["yielded"])):
+        if "send" in op and "during" in op:
+            # the inputs the reader handled while the send was suspended; what wsproto yielded for each (nothing if never reached)
+            ys = (lib.get("during_yielded") or {}).get(op_index) or []
+            ins = [({"in": "data", "events": ys[k] if k < len(ys) else []} if i["in"] == "data" else {"in": "streamClosed"}) for k, i in enumerate(op["during"])]
+            jops.append({"send": ws_msg_json(op["send"]), "during": ins, "at": int(op.get("at", 0))})
+        elif "send" in op:
             jops.append({"send": ws_msg_json(op["send"])})
         elif op["in"] == "data":
             jops.append({"in": "dataEchoLost" if op.get("echo_lost") else "data", "events": yielded})
